@@ -100,6 +100,7 @@ struct State {
    std::unique_ptr<DefAccess> def;
    std::unique_ptr<clf::Creator> creator;
    std::vector<std::unique_ptr<celma::log::detail::ScopedAttribute>> scopes;
+   std::vector<celma::log::detail::LogAttributesContainer::attr_id_t> gids;   // ids addAttribute returned
    std::vector<std::unique_ptr<celma::log::LogAttributes>> chain;   // outermost first
    std::unique_ptr<LogMsg> msg;
    time_t msgTime = 0;
@@ -108,6 +109,7 @@ struct State {
 
    void reset() {
       while (!scopes.empty()) scopes.pop_back();   // newest first
+      gids.clear();
       msg.reset();
       chain.clear();
       creator.reset();
@@ -219,7 +221,24 @@ int main() {
       if (t.size() == 4 && t[0] == "attr" && t[1] == "global") {
          std::string n, v;
          if (!vh::hexDecodeStr(t[2], n) || !vh::hexDecodeStr(t[3], v)) return "bad-op";
-         celma::log::Logging::instance().addAttribute(n, v);
+         st.gids.push_back(celma::log::Logging::instance().addAttribute(n, v));
+         return "ok";
+      }
+      if (t.size() == 3 && t[0] == "attr" && t[1] == "removeentry") {   // the id the j-th addAttribute call returned
+         const size_t j = static_cast<size_t>(std::stoull(t[2]));
+         if (j >= st.gids.size()) return "bad-op";
+         celma::log::Logging::instance().removeAttributeEntry(st.gids[j]);
+         return "ok";
+      }
+      if (t.size() == 2 && t[0] == "attr" && t[1] == "removeunknown") {   // an id that was never handed out
+         celma::log::Logging::instance().removeAttributeEntry(
+            static_cast<celma::log::detail::LogAttributesContainer::attr_id_t>(-1) - 1000);
+         return "ok";
+      }
+      if (t.size() == 3 && t[0] == "scope" && t[1] == "copydrop") {   // copy of live scope i, destroyed at once
+         const size_t i = static_cast<size_t>(std::stoull(t[2]));
+         if (i >= st.scopes.size()) return "bad-op";
+         { celma::log::detail::ScopedAttribute copy(*st.scopes[st.scopes.size() - 1 - i]); }
          return "ok";
       }
       if (t.size() == 3 && t[0] == "attr" && t[1] == "remove") {
